@@ -101,6 +101,12 @@ class Evaluator:
         if a.vararg:
             env[a.vararg.arg] = tuple(args)
             args = []
+        for ka in a.kwonlyargs:
+            if ka.arg in kwargs:
+                env[ka.arg] = kwargs.pop(ka.arg)
+        if a.kwarg:
+            env[a.kwarg.arg] = dict(kwargs)
+            kwargs = {}
         if args or kwargs:
             raise Unsupported(f"arity mismatch calling {finfo.fq}")
         for p, d in finfo.defaults().items():
@@ -313,6 +319,10 @@ class Evaluator:
                 return _BUILTIN_TYPES[e.id]
             if e.id == "itertools":
                 return _itertools
+            if e.id in ("math", "operator", "functools"):
+                import importlib
+
+                return importlib.import_module(e.id)
             raise Unsupported(f"name {e.id} in {fi.fq}")
         if isinstance(e, (ast.Tuple, ast.List)):
             out = []
@@ -448,6 +458,9 @@ class Evaluator:
             return v.cls
         if isinstance(v, Obj) and attr == "__new__":
             return lambda c, *a, **k: Obj(c, {})
+        if isinstance(v, Obj) and attr in getattr(self, "method_stubs", {}):
+            st = self.method_stubs[attr]
+            return lambda *a, _v=v, _st=st, **k: _st(_v, *a, **k)
         if isinstance(v, Obj):
             m = self.prog.lookup_method(v.cls, attr)
             if m is not None:
@@ -465,7 +478,7 @@ class Evaluator:
                 return ("bound", m, None)
         if hasattr(v, "_attr"):
             return v._attr(attr)
-        if isinstance(v, (dict, list, tuple, set, frozenset, str)) and not attr.startswith("_"):
+        if isinstance(v, (dict, list, tuple, set, frozenset, str)) and (not attr.startswith("_") or attr in ("__getitem__", "__contains__", "__len__")):
             return getattr(v, attr)
         if isinstance(v, Obj) and attr == "__class__":
             return v.cls
@@ -473,6 +486,10 @@ class Evaluator:
             return getattr(v, attr)
         if getattr(v, "__module__", None) == "itertools" and not attr.startswith("_"):
             return getattr(v, attr)  # e.g. itertools.chain.from_iterable
+        import types as _types
+
+        if isinstance(v, _types.ModuleType) and v.__name__ in ("math", "operator", "functools") and not attr.startswith("_"):
+            return getattr(v, attr)
         raise Unsupported(f"attribute .{attr} on {type(v).__name__} in {fi.fq}")
 
     def callexpr(self, e, env, fi):
